@@ -11,9 +11,13 @@ Verdict(o) ==
        CASE o.cfg.restrict = "none"  -> IF RoundTripW(o.items, o.obs.back) THEN "ok" ELSE "roundtrip"
          [] o.cfg.restrict = "chrom" -> IF RestrictedChromW(o.items, o.rc, o.obs.back3) THEN "ok" ELSE "restricted-chrom"
          [] o.cfg.restrict = "range" -> IF RestrictedW(o.items, o.rc, o.rs, o.re, o.obs.back3) THEN "ok" ELSE "restricted-range"
+         [] o.cfg.restrict = "start" -> IF RestrictedW(o.items, o.rc, o.rs, o.size, o.obs.back3) THEN "ok" ELSE "restricted-start-only"
+         [] o.cfg.restrict = "end"   -> IF RestrictedW(o.items, o.rc, 0, o.re, o.obs.back3) THEN "ok" ELSE "restricted-end-only"
   ELSE CASE o.cfg.restrict = "none"  -> IF RoundTripB(o.items, o.obs.back) THEN "ok" ELSE "roundtrip"
          [] o.cfg.restrict = "chrom" -> IF RestrictedChromB(o.items, o.rc, o.obs.back3) THEN "ok" ELSE "restricted-chrom"
          [] o.cfg.restrict = "range" -> IF RestrictedB(o.items, o.rc, o.rs, o.re, o.obs.back3) THEN "ok" ELSE "restricted-range"
+         [] o.cfg.restrict = "start" -> IF RestrictedB(o.items, o.rc, o.rs, o.size, o.obs.back3) THEN "ok" ELSE "restricted-start-only"
+         [] o.cfg.restrict = "end"   -> IF RestrictedB(o.items, o.rc, 0, o.re, o.obs.back3) THEN "ok" ELSE "restricted-end-only"
 Post == /\ \A i \in 1..Len(Obs) : LET v == Verdict(Obs[i]) IN (v = "ok" \/ PrintT(<<"BAD", i, v>>))
         /\ PrintT(<<"CHECKED", Len(Obs)>>)
 =============================================================================
